@@ -663,6 +663,21 @@ func (c *Ctx) c02Pop3() {
 				if _, isC := arg.(*ssa.Const); isC {
 					return
 				}
+				// dot-stuffing extracted into a helper: s.send(dotStuff(line))
+				if hc, ok := arg.(*ssa.Call); ok {
+					if rets, g := eng.ReturnedValues(hc, 0); g != nil && len(hc.Call.Args) >= 1 {
+						for ai, a := range hc.Call.Args {
+							if a != ssa.Value(text) || ai >= len(g.Params) {
+								continue
+							}
+							nSend++
+							if why2 := stuffingShape(rets, g.Params[ai], g); why2 != "" {
+								okStuff, why = false, why2+" (in "+shortFn(g)+")"
+							}
+							return
+						}
+					}
+				}
 				// does the argument derive from text?
 				ph, isPhi := arg.(*ssa.Phi)
 				if arg == ssa.Value(text) {
@@ -739,7 +754,7 @@ func (c *Ctx) c02Pop3() {
 				s, isC := eng.ConstString(call.Call.Args[len(call.Call.Args)-1])
 				return isC && s == "."
 			}
-			if ret := (&eng.Search{Target: eng.IsReturn, Avoid: isTerm}).After(sc); ret != nil && !eng.IsRecoverBlock(ret.Block()) {
+			if ret := (&eng.Search{Target: eng.IsReturnOf(fn), Avoid: isTerm, Deep: true}).After(sc); ret != nil && !eng.IsRecoverBlock(ret.Block()) {
 				r.Bad("C02/POP3/lines", cons+":terminator", p.InstrPos(ret), "a return after streaming began does not send the \".\" terminator: the client waits forever")
 			} else {
 				r.Ok("C02/POP3/lines", cons+":terminator", p.InstrPos(sc), "\".\" is sent on every exit after streaming began")
@@ -747,4 +762,63 @@ func (c *Ctx) c02Pop3() {
 		}
 	}
 	r.Floor("C02/POP3/lines", "scanners over message sources in pop3", n, 1)
+}
+
+// stuffingShape: the values returned by helper g for a line parameter are the line itself
+// or "."+line, the latter exactly under strings.HasPrefix(line, "."). Returns a complaint or "".
+func stuffingShape(rets []ssa.Value, line *ssa.Parameter, g *ssa.Function) string {
+	stuffed := false
+	var check func(v ssa.Value, at *ssa.BasicBlock) string
+	check = func(v ssa.Value, at *ssa.BasicBlock) string {
+		if v == ssa.Value(line) {
+			return ""
+		}
+		if ph, ok := v.(*ssa.Phi); ok {
+			for i, e := range ph.Edges {
+				if w := check(e, ph.Block().Preds[i]); w != "" {
+					return w
+				}
+			}
+			return ""
+		}
+		b, ok := v.(*ssa.BinOp)
+		if !ok || b.Op != token.ADD || b.Y != ssa.Value(line) {
+			return "unexpected line transformation"
+		}
+		if s, isC := eng.ConstString(b.X); !isC || s != "." {
+			return "stuffing prefix is not \".\""
+		}
+		under := false
+		for _, bb := range g.Blocks {
+			for k := 0; k < len(bb.Succs) && len(bb.Succs) == 2; k++ {
+				cv, pol, ok := eng.CondTruth(bb, k)
+				if !ok || !pol || !(eng.EdgeDominates(bb, k, at) || bb.Succs[k] == at) {
+					continue
+				}
+				if hc, ok := cv.(*ssa.Call); ok && eng.CalleeName(hc.Common()) == "strings.HasPrefix" && hc.Call.Args[0] == ssa.Value(line) {
+					if s, isC := eng.ConstString(hc.Call.Args[1]); isC && s == "." {
+						under = true
+					}
+				}
+			}
+		}
+		if !under {
+			return "'.'+line is not selected by strings.HasPrefix(line, \".\")"
+		}
+		stuffed = true
+		return ""
+	}
+	for _, rv := range rets {
+		var at *ssa.BasicBlock
+		if in, ok := rv.(ssa.Instruction); ok {
+			at = in.Block()
+		}
+		if w := check(rv, at); w != "" {
+			return w
+		}
+	}
+	if !stuffed {
+		return "no dot-stuffed alternative for the sent line"
+	}
+	return ""
 }
